@@ -22,6 +22,18 @@ impl TL {
     #[verifier::external_body] pub fn eq_complex(&self, rhs: &TL, flags: &Flags) -> (r: bool) ensures r == compat(*self, *rhs, *flags) { unimplemented!() }
 }
 #[verifier::external_body] pub fn clone_tl(t: &TL) -> (r: TL) ensures r == *t { unimplemented!() }
+pub uninterp spec fn sigcheck() -> Flags;               // TypecheckFlags::signature_check(): parameter types are compared strictly (no optional leniency)
+#[verifier::external_body] pub fn flags_signature_check() -> (r: Flags) ensures r == sigcheck() { unimplemented!() }
+// function types
+#[verifier::external_body] pub struct RetCell { x: usize }            // RefCell<ScopeReturnStatus>
+pub uninterp spec fn ret_sig(a: RetCell, b: RetCell) -> Result<bool, VErr>;      // ScopeReturnStatus::eq_for_signature_checking
+#[verifier::external_body] pub fn ret_sig_eq(a: &RetCell, b: &RetCell) -> (r: Result<bool, VErr>) ensures r == ret_sig(*a, *b) { unimplemented!() }
+pub struct Params { pub types: Vec<TL> }
+impl Params {
+    pub fn len(&self) -> (r: usize) ensures r == self.types@.len() { self.types.len() }
+    #[verifier::external_body] pub fn to_types(&self) -> (r: Vec<TL>) ensures r@ == self.types@ { unimplemented!() }
+}
+pub struct FunctionType { pub parameters: Params, pub return_type: RetCell }
 pub enum ListType { Mixed(Vec<TL>), Open(Box<TL>) }
 #[verifier::external_body] pub fn clone_lt(t: &ListType) -> (r: ListType) ensures r == *t { unimplemented!() }
 pub fn vec_first(v: &Vec<TL>) -> (r: Option<&TL>) ensures v@.len() == 0 ==> r is None, v@.len() > 0 ==> r == Some(&v@[0]) { if v.len() == 0 { None } else { Some(&v[0]) } }
@@ -95,7 +107,28 @@ def build(repo):
     ], log, "ListType::try_coerce_to_open")
     check_closed(btc, "ListType::try_coerce_to_open")
 
-    gen = header(log, f"{TYPE}: TypeLayout::eq_complex (list arms); {LIST}: PartialEq for ListType, ListType::try_coerce_to_open") + SPEC + f"""
+    # ---- impl PartialEq for FunctionType (whole function)
+    FUNC = "compiler/src/ast/function.rs"
+    ffe = src.fn(FUNC, "eq", "impl PartialEq for FunctionType")
+    prf = lambda a, ja, b_, jb: f"compat({a}@[{ja}], {b_}@[{jb}], sigcheck())"
+    prf_any = lambda a, ja, b_, jb, fl: f"compat({a}@[{ja}], {b_}@[{jb}], {fl})"
+    def flag_aware(rules_for):
+        return rules_for
+    bfe_toks = list(ffe["body"])
+    # which flag constructor does the closure use? (the invariant is generic in it: code and loop spec share the same flags expression)
+    txt_body = text(bfe_toks)
+    flag_expr = "sigcheck()" if "signature_check" in txt_body and "classless" not in txt_body.split("all")[-1] else ("classless()" if "classless" in txt_body.split("all")[-1] else None)
+    if flag_expr is None:
+        raise Undecided("FunctionType::eq: flags of the parameter comparison not recognised")
+    prf2 = lambda a, ja, b_, jb: f"compat({a}@[{ja}], {b_}@[{jb}], {flag_expr})"
+    bfe = translate(bfe_toks, iter_idiom_rules("f", lambda a, j: "true", prf2) + [
+        Rule("R6", "self . return_type . borrow ( ) . eq_for_signature_checking ( & other . return_type . borrow ( ) )", "ret_sig_eq ( & self . return_type , & other . return_type )", count=1,
+             why="ScopeReturnStatus::eq_for_signature_checking abstract; RefCell borrow dropped (R10)"),
+        Rule("R6", "& TypecheckFlags :: < & ClassType > :: signature_check ( )", "& flags_signature_check ( )", why="TypecheckFlags::signature_check()"),
+        Rule("R6", "& TypecheckFlags :: < & ClassType > :: classless ( )", "& flags_classless ( )", why="TypecheckFlags::classless()"),
+    ], log, "FunctionType::eq")
+    check_closed(bfe, "FunctionType::eq")
+    gen = header(log, f"{TYPE}: TypeLayout::eq_complex (list arms); {FUNC}: PartialEq for FunctionType; {LIST}: PartialEq for ListType, ListType::try_coerce_to_open") + SPEC + f"""
 //@ OBL C02.compat.list.mixed-mixed
 #[verifier::loop_isolation(false)]
 pub fn eq_complex_arm_mixed_mixed(t1: &Vec<TL>, t2: &Vec<TL>, flags: &Flags) -> (r: bool)
@@ -145,10 +178,26 @@ impl ListType {{
 {render(btc, 2)}
     }}
 }}
+
+impl FunctionType {{
+    //@ OBL C02.compat.function.eq
+    // a function value fits a function-typed position (callback parameter, variable, return) only if the signatures agree:
+    // same number of parameters, return types agree, and EVERY parameter pair is compatible under the strict signature flags
+    // (so `fn(int) -> int` is not accepted where `fn(int?) -> int` is expected: the callee may be handed nil)
+    #[verifier::loop_isolation(false)]
+    pub fn eq(&self, other: &FunctionType) -> (r: bool)
+        ensures r == (self.parameters.types@.len() == other.parameters.types@.len()
+                      && ret_sig(self.return_type, other.return_type) == Ok::<bool, VErr>(true)
+                      && forall|j: int| 0 <= j < self.parameters.types@.len() ==> compat(#[trigger] self.parameters.types@[j], other.parameters.types@[j], sigcheck()))
+    {{
+{render(bfe, 2)}
+    }}
+}}
 }} // verus!
 fn main() {{}}
 """
     obls = [
+        Obl("C02.compat.function.eq", ["C02", "C03"], fn="FunctionType::eq", desc="PartialEq for FunctionType: same arity, return types agree for signature checking, every parameter pair compatible under signature_check flags"),
         Obl("C02.compat.list.mixed-mixed", ["C02", "C03"], fn="eq_complex_arm_mixed_mixed", desc="eq_complex, [A, B] vs [C, D]: compatible exactly when every slot of the common prefix is"),
         Obl("C02.compat.list.open-open", ["C02", "C03"], fn="eq_complex_arm_open_open", desc="eq_complex, [T...] vs [U...]: compatible exactly when T and U are"),
         Obl("C02.compat.list.mixed-open", ["C02", "C03"], fn="eq_complex_arm_mixed_open", desc="eq_complex, fixed-shape list vs [T...]: compatible exactly when EVERY slot is compatible with T"),
